@@ -676,7 +676,11 @@ impl Scenario for Ns {
         p.stream = gen_hist_stream(rng, &p.doc, 3);
         let n_ops = rng.range(2, 2 * p.toks.len() + 2);
         let skip_share = *rng.pick(&[3usize, 5, 10, 1000]);
+        let flip_share = *rng.pick(&[0usize, 0, 0, 8]);
         for _ in 0..n_ops {
+            if flip_share > 0 && rng.chance(1, flip_share) {
+                p.ops.push(Op::Flip { bit: CFG_EXPAND_EMPTY, on: rng.bool() });
+            }
             p.ops.push(if rng.chance(1, skip_share) {
                 if p.stream.kind == SourceKind::Slice && rng.chance(1, 3) {
                     Op::ReadText
@@ -697,7 +701,7 @@ impl Scenario for Ns {
         let shared = Rc::new(plan.doc.clone());
         let toks = &plan.toks;
         let mt = match_table(toks);
-        let expand = plan.cfg & CFG_EXPAND_EMPTY != 0;
+        let mut expand = plan.cfg & CFG_EXPAND_EMPTY != 0;
         let log = new_log(refill_budget(plan.doc.len(), &plan.stream) * 2);
         let mut v: Vec<Violation> = vec![];
         // probe the fixed prefixes and every prefix that occurs in the document
@@ -733,6 +737,15 @@ impl Scenario for Ns {
             let mut open: Vec<usize> = vec![];
             for (oi, op) in plan.ops.iter().enumerate() {
                 log.borrow_mut().cur_op = oi as u32;
+                if let Op::Flip { bit, on } = op {
+                    // only the expansion switch is flipped in this scenario; it applies to
+                    // the tags read from now on (a half-delivered <e/> still gets its End)
+                    if *bit == CFG_EXPAND_EMPTY {
+                        expand = *on;
+                        rd.config_mut().expand_empty_elements = *on;
+                    }
+                    continue;
+                }
                 if pending_pop {
                     stack.pop();
                     pending_pop = false;
